@@ -259,7 +259,7 @@ def coq_outcome(r):
     if len(canon) >= 24 and (canon[0] >> 3) & 7 == 5:
         canon[16:24] = bytes(8)           # the random server cookie
     if auth is None:
-        w = "{| w_prefix := %s; w_auth := None; w_suffix := [] |}" % zl(canon)
+        w = "{| w_prefix := %s; w_auth := None; w_suffix := %s |}" % (zl(canon[:48]), zl(canon[48:]))
     else:
         off, wire, n, c = auth
         if r.dump_status == "OK":
@@ -584,6 +584,13 @@ def uid_wire(ver, item):
     return (4 + n + 3) // 4 * 4
 
 
+def c17_class_nodraft(o, nts_answer):
+    """NTPv5 request without the draft identification whose NTS authenticator failed (NAK / DENY adds the field)"""
+    p = o.parse
+    return (not nts_answer and p["version"] == 5 and p["status"] == "DE"
+            and not any(i[0] == "d" and unhex(i[1:]) == DRAFT for i in p["U"] + p["A"]))
+
+
 def c17_class(o, nts_answer):
     """KnownClass_C17 computed from the decoder's view of the request: some echoed unique-identifier field
     is shorter on the wire than the minimum size at its place in the answer, or (NTS answers) an NTS nonce is
@@ -646,6 +653,8 @@ def monitor_c17(case, toks):
         payload = {"request_hex": o.msg.hex(), "request_len": len(o.msg), "answer_len": r2.length}
         if o.parse is not None and c17_class(o, is_nts_answer(case, o)):
             payload["class"] = "C17-short-uid-or-nonce"
+        elif o.parse is not None and c17_class_nodraft(o, is_nts_answer(case, o)):
+            payload["class"] = "C17-v5-nak-without-draft"
         return ("a %d-byte request is answered (%d bytes) with a 1024-byte buffer but dropped (%s) with a buffer as long as the request"
                 % (len(o.msg), r2.length, r1.stats), payload)
     return None
@@ -671,7 +680,7 @@ def _find_markers(o):
                     marks.append(val[k:k + 8])
         if len(sc["mac"]) >= 8:
             marks.append(sc["mac"][:8])
-    return [m for m in marks if len(set(m)) >= 5 and m != b"NTP5DRFT"]
+    return [m for m in marks if len(set(m)) >= 5 and m != b"NTP5DRFT" and m not in DRAFT]
 
 
 def monitor_c18(case, toks):
